@@ -311,6 +311,19 @@ pub fn run_c10(seed: u64, n: usize, out: &str) {
     let mut r = Rng::new(seed ^ 0xC10);
     // f32 build: runner module C10f32 of Run/C10.v (the same text on the binary32 instance)
     let mut sink = Sink::new32(out, "C10", 12);
+    // corpus: the recorded finding C10:collinear-dependence:tolerance-corner:* (an input point exactly on an edge but within
+    // 1e-5 / |edge| of a corner: |cross| = 5e-6 < 1e-5, push takes the genuine corner (1,0,0) for a straight run and drops it)
+    {
+        let p = |x: f64, y: f64| Point3D::new(x as Float, y as Float, 0.0);
+        let base = vec![p(1.0, 0.0), p(1.0, 1.0), p(0.0, 1.0), p(0.0, 0.0)];
+        let enr = vec![p(0.9995, 0.0), p(1.0, 0.0), p(1.0, 0.01), p(1.0, 1.0), p(0.0, 1.0), p(0.0, 0.0)];
+        let vs = vec![Variant { kind: "base", k: 0, pts: base, mat: None }, Variant { kind: "collinear", k: 0, pts: enr, mat: None }];
+        let outs: Vec<(String, String)> = vs.iter().map(variant_out).collect();
+        sink.push(
+            format!("[{}]", outs.iter().map(|o| o.0.clone()).collect::<Vec<_>>().join("; ")),
+            format!("{{\"note\":\"corpus:tolerance-corner:4:plane0:convex-first\",\"variants\":[{}]}}", outs.iter().map(|o| o.1.clone()).collect::<Vec<_>>().join(",")),
+        );
+    }
     // the last eighth of the stream: huge outlines, drawn from a second generator state (the first 7/8 are the old sequence)
     let mut r2 = Rng::new(seed ^ 0xC10_B16);
     let nold = n - n / 8;
